@@ -230,7 +230,10 @@ def future_program(pid, macro, seed, length):
     for _ in range(length):
         cands = ["|>", "??", "->", ".."]
         if cur[0] == "res":
-            cands += ["=>", "<=", "!>", "=>", "<="]
+            cands += ["!>"]
+            # and_then / or_else nest state machines: two of them in a chain of three or more exceed the 12 GB cap (measured)
+            if sum(1 for o_ in ops if o_ in ("=>", "<=")) < (1 if length >= 3 else 2):
+                cands += ["=>", "<=", "=>", "<="]
         op = r.choice(cands)
         ops.append(op)
         if op == "|>":
@@ -328,7 +331,7 @@ META = dict(
          "Each program is compared with the documented method chain on the same symbolic input (values, iterator elements, thresholds) including the callback trace; packed 8 per query; "
          "disagreements_checked = programs whose query was discharged; distinct = distinct invocation texts",
     functions_encoded=["expansions of join! and the other macro names over all 22 operators (DEFAULT_GROUP_DETERMINERS, ActionGroup::parse_action_expr, ProcessExpr/ErrExpr ToTokens, expand_process_expr)"],
-    bounds=["iterators of 3 symbolic elements for single operators; 2 (quick) / 3 (thorough) for pairs, chains and macro variants; operand iterators 2", "chains <= 2 exhaustive, <= 6 sampled", "unwind 12 (Vec equality / iterator loops)", "async: future-level operators over ready futures"],
+    bounds=["iterators of 3 symbolic elements for single operators; 2 (quick) / 3 (thorough) for pairs, chains and macro variants; operand iterators 2", "chains <= 2 exhaustive, <= 6 sampled", "unwind 12 (Vec equality / iterator loops)", "async: future-level operators over ready futures, at most one and_then / or_else per chain of three or more operators"],
     outside=["longer iterators/chains", "operand expressions outside the generated shapes (see C14)", "stream-level operators in async macros", "operators of the `full` feature (not enabled by `join`)"],
     assumptions=["reference renderings of DESIGN.md Appendix A", "thread model of DESIGN.md 2.2 for the spawn names"],
 )
